@@ -112,5 +112,14 @@ example : pathVerifyUpdate TH 2 (nodeAt TH 2 0 exS) exPaths
     · exact ⟨proveSpec TH 2 exS [true, false], [true, false], rfl, rfl⟩
   · simp only [exPaths]; decide
   · decide
+example (r : T) (h : pathVerifyUpdate TH 2 (nodeAt TH 2 0 exS) exPaths = .ok r) :
+    r = nodeAt TH 2 0 [([false, false], 7), ([false, true], 5), ([true, false], 1)] := by
+  apply T8_3_verify_update_sound TH TH_sound 2 exS (by simp [exS, Canon, side]) (by simp [exS]) exPaths _ _ r h
+  · intro p hp
+    simp only [exPaths, List.mem_cons, List.not_mem_nil, or_false] at hp
+    rcases hp with rfl | rfl
+    · exact ⟨proveSpec TH 2 exS [false, true], [false, true], rfl, rfl⟩
+    · exact ⟨proveSpec TH 2 exS [true, false], [true, false], rfl, rfl⟩
+  · simp only [exPaths]; decide
 
 end Nomt.C08
